@@ -358,7 +358,10 @@ RS(n, p) ==
      [] n.k = "Assert" -> simple(<<T("assert")>> \o Ch(n.test, "test", TEST) \o (IF n.msg.k = "~" THEN <<>> ELSE <<T(",")>> \o Ch(n.msg, "msg", TEST)))
      [] n.k \in {"Global", "Nonlocal"} -> simple(<<T(IF n.k = "Global" THEN "global" ELSE "nonlocal")>> \o Commas([j \in 1..Len(n.names) |-> <<T(n.names[j])>>]))
      [] n.k = "Import" -> simple(<<T("import")>> \o Commas([j \in 1..Len(n.names) |-> RAlias(n.names[j], p \o <<"names", j>>)]))
-     [] n.k = "ImportFrom" -> simple(<<T("from")>> \o [j \in 1..n.level |-> T(".")] \o (IF n.module = NoStr THEN <<>> ELSE <<T(n.module)>>) \o <<T("import")>>
+     [] n.k = "ImportFrom" -> simple(<<T("from")>>
+                                     \* the level is written with '.' tokens, or with as many '...' tokens as fit followed by '.' tokens
+                                     \o (IF n.ell THEN [j \in 1..(n.level \div 3) |-> T("...")] \o [j \in 1..(n.level % 3) |-> T(".")] ELSE [j \in 1..n.level |-> T(".")])
+                                     \o (IF n.module = NoStr THEN <<>> ELSE <<T(n.module)>>) \o <<T("import")>>
                                      \o (IF n.star THEN <<B(p \o <<"names", 1>>), T("*"), E(p \o <<"names", 1>>)>>
                                          ELSE Commas([j \in 1..Len(n.names) |-> RAlias(n.names[j], p \o <<"names", j>>)])))
      [] n.k = "TypeAlias" -> simple(<<T("type")>> \o Ch(n.name, "name", NOPAREN) \o RTypeParams(n.type_params, p) \o <<T("=")>> \o Ch(n.value, "value", TEST))
@@ -472,9 +475,10 @@ PushGlobal == On("Global") /\ Can(0) /\ \E kk \in {"Global", "Nonlocal"}, ns \in
 Alias(nm, asn) == [k |-> "alias", name |-> nm, asname |-> asn]
 PushImport == On("Import") /\ Can(0) /\
               \/ \E ns \in {<<Alias("m", NoStr)>>, <<Alias("m.n", "o")>>, <<Alias("m", NoStr), Alias("p.q.r", "s")>>} : Push(St([k |-> "Import", names |-> ns]))
-              \/ \E lv \in 0..4, md \in {NoStr, "m", "m.n"}, ns \in {<<Alias("x", NoStr)>>, <<Alias("x", "y"), Alias("z", NoStr)>>} :
-                    (lv = 0 => md # NoStr) /\ Push(St([k |-> "ImportFrom", module |-> md, names |-> ns, level |-> lv, star |-> FALSE]))
-              \/ \E lv \in 0..1 : Push(St([k |-> "ImportFrom", module |-> "m", names |-> <<Alias("*", NoStr)>>, level |-> lv, star |-> TRUE]))
+              \/ \E lv \in 0..7, md \in {NoStr, "m", "m.n"}, ns \in {<<Alias("x", NoStr)>>, <<Alias("x", "y"), Alias("z", NoStr)>>} :
+                    (lv = 0 => md # NoStr) /\ \E ell \in BOOLEAN : (ell => lv >= 3) /\
+                    Push(St([k |-> "ImportFrom", module |-> md, names |-> ns, level |-> lv, star |-> FALSE, ell |-> ell]))
+              \/ \E lv \in 0..1 : Push(St([k |-> "ImportFrom", module |-> "m", names |-> <<Alias("*", NoStr)>>, level |-> lv, star |-> TRUE, ell |-> FALSE]))
 TypeParamSets == {<<>>, <<[k |-> "TypeVar", name |-> "T", bound |-> None]>>,
                   <<[k |-> "TypeVar", name |-> "T", bound |-> Name("int", "Load")], [k |-> "TypeVarTuple", name |-> "Ts"], [k |-> "ParamSpec", name |-> "P"]>>}
 MkTypeAlias == On("TypeAlias") /\ Can(1) /\ CatsAre(1, {"expr"}) /\ \E nm \in {"X", "type", "match"}, tps \in TypeParamSets :
